@@ -2,7 +2,7 @@
    real engine with several data values in production (and optionally debug) mode, compared with
    M (Pug.Compile + Tmpl.Exec) and with S (Spec.Sem), the independent semantics. *)
 From PV Require Export Base.Bytes Base.Escape Js.Ast Pug.Ast Tmpl.Value Tmpl.IR Tmpl.Exec.
-From PV Require Import Pug.Compile Run.Verdict Spec.Sem.
+From PV Require Import Pug.Compile Pug.Lower Run.Verdict Spec.Sem.
 
 Record obsm := { o_loaded : bool; o_code : bytes; o_res : list (nat * bytes) }.   (* class: 0 ok, 1 panic, 2 other *)
 Record caseC := {
@@ -84,10 +84,27 @@ Definition out_ok (c : caseC) (go spec : bytes) : bool :=
   if existsb has_ctl (c_nodes c) && negb (forallb texts_ok (c_nodes c)) then ws_subseq go spec
   else beqb go spec.
 
+(* the tree-level lowering the C02 simulation theorem is about (Pug/Lower.v) must behave as the parsed compiled
+   tokens do: evaluated on every case of the fragment whose texts have no edge white space (trim markers
+   remove that from the token form only); 0 same outcome, 1 different, 3 not applicable *)
+Definition outcome_eqb (a b : outcome) : bool :=
+  match a, b with
+  | OOk x, OOk y => beqb x y
+  | OPanic, OPanic | OUnmod, OUnmod | OFuel, OFuel => true
+  | _, _ => false
+  end.
+Definition lower_seam (c : caseC) (d : dval) : nat :=
+  if negb (forallb texts_ok (c_nodes c)) then 3 else
+  match lower_nodes (c_funcs c) (fun _ => true) (c_nodes c) with
+  | None => 3
+  | Some t => if outcome_eqb (run_program {| p_main := t; p_defs := [] |} d) (model_out false c d) then 0 else 1
+  end.
+
 (* verdict for one data value in production mode *)
 Definition judge_one (c : caseC) (d : dval) (go : nat * bytes) : nat :=
   let loaded := o_loaded (c_prod c) in
-  let a := agree_code loaded go (model_out false c d) in
+  let a0 := agree_code loaded go (model_out false c d) in
+  let a := match a0, lower_seam c d with 0, 1 => 1 | x, _ => x end in   (* a lowering that disagrees with the compiled form is drift *)
   let plain := match a with 0 => v_agree | 3 => v_unmodelled | _ => v_drift end in
   match spec_out c d with
   | SOut o [] =>
@@ -106,8 +123,11 @@ Definition judge_one (c : caseC) (d : dval) (go : nat * bytes) : nat :=
            | _ => v_drift
            end
          end
-  | SError _ =>
+  | SError [] =>
     if loaded && Nat.eqb (fst go) 1 then (match a with 1 => v_drift | _ => v_agree end) else v_violation
+  | SError (f :: _) =>
+    if loaded && Nat.eqb (fst go) 1 then (match a with 1 => v_drift | _ => v_agree end)
+    else match a with 0 => v_known f | 3 => v_unmodelled | _ => v_drift end
   | SOffDomain | SNoFuel => plain
   end.
 
@@ -131,7 +151,7 @@ Definition load_verdict (c : caseC) : option nat :=
   match c_datas c with
   | d :: _ =>
     match spec_out c d with
-    | SOut _ [] | SError _ => Some v_violation
+    | SOut _ [] | SError [] => Some v_violation
     | _ => match model_program false c with Some _ => Some v_drift | None => Some v_unmodelled end
     end
   | [] => Some v_unmodelled
